@@ -70,6 +70,13 @@ func (w *FindRules) Do(ctx *Context, loc *Location) {
 	} else {
 		embed, given := w.Event["evaluate!"]
 		if given {
+			// An embedded rule doesn't go through a rule lookup,
+			// which is where the other kinds of event find out
+			// that the location is disabled.
+			if !loc.Enabled(ctx) {
+				w.Disposition = &Condition{"Location is disabled.", "nonfatal"}
+				return
+			}
 			embedded = true
 			m, ok := embed.(map[string]interface{})
 			if !ok {
